@@ -170,6 +170,11 @@ func fnGetEx(ctx *cmdContext, args map[string]any) (output respValue, err error)
 		return
 	}
 
+	if len(args) == 1 {
+		// no option: a plain read, the deadline is not touched
+		return fnGet(ctx, args)
+	}
+
 	str, valueExists := ctx.dsc.getKeySetExpiration(keyName, expiration)
 	if valueExists == VALUE_WRONG_TYPE {
 		output.data = wrongTypeError
